@@ -30,7 +30,7 @@ def exhaustive(tier):
 
 def required(tier):
     return ["B:n<1000", "B:n%1000==0", "B:n>=10^7", "B:split_sum_differs", "B:n>=2^53", "TS:no_exponent", "TS:exponent", "A:anchor",
-            "tick_digits>=10", "leading_zeros", "chart_without_anchors_after_chart_with_anchors"]
+            "tick_digits>=10", "leading_zeros", "chart_without_anchors_after_chart_with_anchors", "ambient_decimal_context_lowered"]
 
 
 def shards(tier, seed):
@@ -188,6 +188,12 @@ def run_shard(shard, rec, tier, seed):
     harness.setup(prescreen_tempo=False)
     rng = harness.rng_for(seed, ID, shard["name"], 0)
     k = shard["kind"]
+    if shard["name"] in ("enum-1", "sample-1", "ts-0"):
+        import decimal  # the caller's numeric context is not the library's to depend on
+
+        decimal.getcontext().prec = 4
+        decimal.getcontext().rounding = decimal.ROUND_DOWN
+        rec.cls("ambient_decimal_context_lowered")
     if k == "enum":
         ns = list(range(shard["lo"], shard["hi"] + 1))
         for i in range(0, len(ns), 25000):
